@@ -16,6 +16,7 @@ package main
 
 import (
 	"fmt"
+	"go/build"
 	"math/rand"
 	"os"
 	"path/filepath"
@@ -101,6 +102,73 @@ func laneCorpus() []*tcase {
 		mk(flags{mainCmd: true}, "vmain out:x\n! vmain out:y\nmkdir never\n", obs{verdict: "fail", line: 2}, "negated Main command that succeeds", "main-cmd:implicit"),
 		mk(flags{mainCmd: true, cont: true}, "vmain exit:3\nmkdir after\n", obs{verdict: "fail", line: 1, tree: []string{d("after")}}, "Main command that fails, ContinueOnError", "main-cmd:implicit"),
 	}
+}
+
+// oracleOnlyCorpus: fixed scripts over parts of the documented language the Lean model leaves out; the expectation is
+// written down here.
+//   - [go1.N] conditions: true exactly for the release tags of the toolchain (go1.1 … go1.<current>), whatever the
+//     number of digits of N (seeded C01-m11 compared the tags as strings);
+//   - a program that the script itself installs on, or shadows along, an unchanged $PATH between two `exec`s of the
+//     same bare name (seeded C01-m10 memoised the look-up per $PATH value);
+//   - UpdateScripts on a script whose text has CRLF line ends: the script text stays byte-for-byte (seeded C16-m12).
+func oracleOnlyCorpus() []*tcase {
+	mk := func(fl flags, file string, exp obs, recipe string, tags ...string) *tcase {
+		if exp.file == nil {
+			exp.file = []byte(file)
+		}
+		sort.Strings(exp.tree)
+		fl.oracleOnly = true
+		return &tcase{kind: "c01", fl: fl, file: []byte(file), exp: &exp, recipe: recipe, tags: append([]string{"nontrivial", "corpus"}, tags...)}
+	}
+	d := func(name string) string { return "d:" + corr.Hx([]byte(name)) }
+	f := func(name, data string) string { return "f:" + corr.Hx([]byte(name)) + ":" + corr.Hx([]byte(data)) }
+	var out []*tcase
+	// ---- [go1.N]
+	cur := 0
+	for _, t := range build.Default.ReleaseTags {
+		if n, err := strconv.Atoi(strings.TrimPrefix(t, "go1.")); err == nil && n > cur {
+			cur = n
+		}
+	}
+	if cur >= 10 {
+		for _, n := range []int{1, 3, 9, 10, 12, cur - 1, cur} {
+			c := fmt.Sprintf("go1.%d", n)
+			out = append(out,
+				mk(flags{}, "["+c+"] exists nothing\nmkdir after\n", obs{verdict: "fail", line: 1}, "["+c+"] holds for this toolchain: the guarded failing line runs", "cond:go-version-true"),
+				mk(flags{}, "[!"+c+"] exists nothing\nmkdir after\n", obs{verdict: "pass", line: -1, tree: []string{d("after")}}, "[!"+c+"] does not hold: the guarded line is skipped", "cond:go-version-true"))
+		}
+		for _, n := range []int{cur + 1, cur + 7, 100, 101, 1000} {
+			if n <= cur {
+				continue
+			}
+			c := fmt.Sprintf("go1.%d", n)
+			out = append(out,
+				mk(flags{}, "["+c+"] exists nothing\nmkdir after\n", obs{verdict: "pass", line: -1, tree: []string{d("after")}}, "["+c+"] is not a release tag of this toolchain: the guarded line is skipped", "cond:go-version-false"),
+				mk(flags{cont: true}, "[!"+c+"] exists nothing\nmkdir after\n", obs{verdict: "fail", line: 1, tree: []string{d("after")}}, "[!"+c+"] holds: the guarded failing line runs", "cond:go-version-false"))
+		}
+	}
+	// ---- programs installed along an unchanged $PATH
+	okSh, badSh := "#!/bin/sh\nexit 0\n", "#!/bin/sh\nexit 1\n"
+	if _, err := os.Stat("/bin/sh"); err == nil {
+		out = append(out,
+			mk(flags{}, "mkdir bin\nenv PATH=$WORK/bin${:}$PATH\n! exec mytool\ncp ok.sh bin/mytool\nchmod 755 bin/mytool\nexec mytool\n-- ok.sh --\n"+okSh,
+				obs{verdict: "pass", line: -1, tree: []string{d("bin"), f("bin/mytool", okSh), f("ok.sh", okSh)}},
+				"a program that is not found at first, then installed on the unchanged $PATH, is found by the next exec", "exec:path-install"),
+			mk(flags{}, "mkdir bin1\nmkdir bin2\ncp ok.sh bin2/mytool\nchmod 755 bin2/mytool\nenv PATH=$WORK/bin1${:}$WORK/bin2${:}$PATH\nexec mytool\ncp bad.sh bin1/mytool\nchmod 755 bin1/mytool\nexec mytool\nmkdir never\n-- ok.sh --\n"+okSh+"-- bad.sh --\n"+badSh,
+				obs{verdict: "fail", line: 9, tree: []string{d("bin1"), d("bin2"), f("bin1/mytool", badSh), f("bin2/mytool", okSh), f("ok.sh", okSh), f("bad.sh", badSh)}},
+				"a failing program installed earlier on the unchanged $PATH shadows the one found before", "exec:path-shadow"),
+			mk(flags{}, "mkdir bin\nenv PATH=$WORK/bin${:}$PATH\ncp ok.sh bin/mytool\nchmod 755 bin/mytool\nexec mytool\nrm bin/mytool\n! exec mytool\nexec mytool\n-- ok.sh --\n"+okSh,
+				obs{verdict: "fail", line: 8, tree: []string{d("bin"), f("ok.sh", okSh)}},
+				"a program removed from the unchanged $PATH is no longer found", "exec:path-remove"))
+	}
+	// ---- UpdateScripts, CRLF script text
+	crlf := "exec vh out:new\r\ncmp stdout g\r\n# done\r\n"
+	out = append(out,
+		mk(flags{update: true}, crlf+"-- g --\nold\n", obs{verdict: "pass", line: -1, tree: []string{f("g", "old\n")}, file: []byte(crlf + "-- g --\nnew\n")},
+			"UpdateScripts on a script with CRLF line ends: only the golden entry changes, the script text stays byte-for-byte", "update:crlf-script-text"),
+		mk(flags{update: true}, crlf+"-- g --\nold\n-- h --\nkeep\r\n", obs{verdict: "pass", line: -1, tree: []string{f("g", "old\n"), f("h", "keep\r\n")}, file: []byte(crlf + "-- g --\nnew\n-- h --\nkeep\r\n")},
+			"UpdateScripts, CRLF script text, a bystander entry with CRLF data", "update:crlf-script-text"))
+	return out
 }
 
 // ---------------------------------------------------------------- Params.Deadline
